@@ -100,6 +100,15 @@ impl Incremental {
     }
 }
 
+/// No output location, or the input itself as output location: sources are rewritten
+/// where they are.
+pub fn is_in_place(opts: &OptSpec) -> bool {
+    match &opts.output {
+        None => true,
+        Some(output) => gen::normalize(output) == gen::normalize(&opts.input),
+    }
+}
+
 pub fn output_dir(opts: &OptSpec) -> String {
     gen::normalize(opts.output.as_deref().unwrap_or("out"))
 }
@@ -770,7 +779,7 @@ pub fn run_l1(scn: &C10Scenario, stats: &mut RunStats) -> Vec<Violation> {
     let store = Store::new(scn.backend, scn.walk_seed, &scn.entries);
     let resources = store.resources();
     let mut opts = scn.opts.clone();
-    let in_place = opts.output.is_none();
+    let in_place = is_in_place(&opts);
     let region = if in_place {
         gen::normalize(&opts.input)
     } else {
@@ -819,7 +828,7 @@ pub fn run_l1(scn: &C10Scenario, stats: &mut RunStats) -> Vec<Violation> {
                                     Path::new(&out).join(rel).to_string_lossy().into_owned()
                                 });
                                 if gen::is_lua(path) && mirror.is_some() {
-                                    let mirror = if in_place { None } else { mirror };
+                                    let mirror = if opts.output.is_none() { None } else { mirror };
                                     tree.add_source(Path::new(path), mirror.map(Into::into));
                                 } else {
                                     tree.source_changed(Path::new(path));
@@ -1411,7 +1420,7 @@ impl Property for C10 {
         counters.insert("relaxed_failing_sources".to_owned(), stats.relaxed_sources);
         counters.insert(format!("backend:{:?}", scn.backend), 1);
         counters.insert(format!("layer:{:?}", scn.layer), 1);
-        if scn.opts.output.is_none() {
+        if is_in_place(&scn.opts) {
             counters.insert("in_place_histories".to_owned(), 1);
             counters.insert("in_place_files_compared".to_owned(), stats.in_place_compared);
             counters.insert("in_place_files_not_idempotent".to_owned(), stats.in_place_not_idempotent);
@@ -1524,7 +1533,7 @@ impl Property for C10 {
                     // without it, and the other way round
                     kinds.push("HarnessRule".to_owned());
                 }
-                if scn.opts.output.is_none() {
+                if is_in_place(&scn.opts) {
                     kinds.push("InPlace".to_owned());
                 }
                 kinds.sort();
